@@ -204,3 +204,50 @@ func indexSites(fn *ssa.Function) []indexSite {
 	})
 	return out
 }
+
+// IFACE-COMPARE: `a == b` / `a != b` on two interface-typed operands panics at run time when both hold the same
+// uncomparable dynamic type (slice, map, func, struct containing one). Safe forms: one side is nil, one side is a
+// package-level sentinel / function result of error type compared by identity (pointer-shaped errors), or the
+// static type is `error`.
+type ifaceCompare struct {
+	fn  *ssa.Function
+	op  *ssa.BinOp
+	why string
+}
+
+func ifaceCompares(fns []*ssa.Function) []ifaceCompare {
+	var out []ifaceCompare
+	isNilConst := func(v ssa.Value) bool {
+		c, ok := v.(*ssa.Const)
+		return ok && c.IsNil()
+	}
+	for _, fn := range fns {
+		instrs(fn, func(in ssa.Instruction) {
+			b, ok := in.(*ssa.BinOp)
+			if !ok || (b.Op != token.EQL && b.Op != token.NEQ) {
+				return
+			}
+			_, xi := b.X.Type().Underlying().(*types.Interface)
+			_, yi := b.Y.Type().Underlying().(*types.Interface)
+			if !xi || !yi || isNilConst(b.X) || isNilConst(b.Y) {
+				return
+			}
+			if isErrorType(b.X.Type()) || isErrorType(b.Y.Type()) {
+				return
+			}
+			if _, isTP := b.X.Type().(*types.TypeParam); isTP {
+				return // comparable-constrained type parameters only compile when comparable
+			}
+			// reflect.Type values are comparable by construction (*rtype)
+			if isReflectType(b.X.Type()) || isReflectType(b.Y.Type()) {
+				return
+			}
+			out = append(out, ifaceCompare{fn, b, "both operands are interface values of unknown dynamic type"})
+		})
+	}
+	return out
+}
+
+func isErrorType(t types.Type) bool {
+	return types.Identical(t, types.Universe.Lookup("error").Type())
+}
